@@ -6,7 +6,7 @@ import random
 import z3
 
 import runner
-from runner import Report, Native, parallel, triage, obs_equal
+from runner import Report, Native, parallel, parallel_stream, triage, obs_equal
 
 
 class NativeCtx:
@@ -211,7 +211,8 @@ def validate(rep, native, scens, driver_setup=None, symrun=None, natrun=None):
 
 
 def scenario_check(prop, tier, seed, items, evaluate, sig_of, bounds, assumptions, rule, expected_cells=None,
-                   n_validate=None, driver_setup=None, hooks=False, chunksize=8, symrun=None, natrun=None, pre_finish=None):
+                   n_validate=None, driver_setup=None, hooks=False, chunksize=8, symrun=None, natrun=None, pre_finish=None,
+                   stream=None):
     rep = Report(prop, tier, seed)
     rep.bounds = bounds
     rnd = random.Random(seed)
@@ -224,6 +225,9 @@ def scenario_check(prop, tier, seed, items, evaluate, sig_of, bounds, assumption
     validate(rep, native, [random_concrete(s, rnd) for _, s in picks], driver_setup, symrun, natrun)
     for r in parallel(items, make_worker(prop, evaluate, driver_setup, symrun), chunksize=chunksize):
         rep.absorb(r)
+    if stream is not None:
+        # large families: generated lazily, results folded in as they arrive
+        parallel_stream(stream(), make_worker(prop, evaluate, driver_setup, symrun), rep.absorb, chunksize=128)
     triage(rep, native, native_evaluator(prop, evaluate), sig_of, natrun=natrun)
     if expected_cells is not None:
         missing = set(map(str, expected_cells)) - set(rep.cells)
